@@ -664,6 +664,7 @@ func c13Exit(c *Ctx, g *load.G) {
 		return -1, true
 	}
 	usageExit := map[string]bool{}
+	var exitParamOK func(ce *ast.CallExpr) bool
 	endsInNonZeroExit := func(b *ast.BlockStmt) bool {
 		if len(b.List) == 0 {
 			return false
@@ -677,6 +678,9 @@ func c13Exit(c *Ctx, g *load.G) {
 			return false
 		}
 		if v, ok := exitArg(ce); ok && v > 0 {
+			return true
+		}
+		if v, ok := exitArg(ce); ok && v < 0 && exitParamOK != nil && exitParamOK(ce) {
 			return true
 		}
 		if usageExit[callName(ce)] && len(ce.Args) >= 1 {
@@ -719,9 +723,44 @@ func c13Exit(c *Ctx, g *load.G) {
 			for _, ce := range callsIn(fd.Body) {
 				if callName(ce) == "exit" && len(ce.Args) == 1 && nospace(ce.Args[0]) == ps[0] && len(guardsOf(fd.Body, ce.Pos())) == 0 {
 					usageExit[fd.Name.Name] = true
+					exitingCalls[fd.Name.Name] = true
 				}
 			}
 		}
+	}
+	// exit(<parameter>): the status is constant and non-zero at every call site of the enclosing function
+	exitParamOK = func(ce *ast.CallExpr) bool {
+		var encl *ast.FuncDecl
+		for _, fd := range cmdFuncs {
+			if fd.Pos() <= ce.Pos() && ce.End() <= fd.End() {
+				encl = fd
+			}
+		}
+		if encl == nil || len(ce.Args) != 1 {
+			return false
+		}
+		k, isParam := paramIndexByName(encl, nospace(ce.Args[0]))
+		if !isParam {
+			return false
+		}
+		fl := newFlow(root, nil)
+		sites := fl.callSites(encl)
+		if len(sites) == 0 {
+			return false
+		}
+		for _, cs := range sites {
+			if k >= len(cs.Call.Args) {
+				return false
+			}
+			tv, ok := info.Types[cs.Call.Args[k]]
+			if !ok || tv.Value == nil {
+				return false
+			}
+			if x, ok := constant.Int64Val(constant.ToInt(tv.Value)); !ok || x <= 0 {
+				return false
+			}
+		}
+		return true
 	}
 	for _, fd := range cmdFuncs {
 		fn := fd.Name.Name
@@ -799,79 +838,64 @@ func c13Exit(c *Ctx, g *load.G) {
 			if usageExit[fn] && len(paramNames(fd)) > 0 && nospace(ce.Args[0]) == paramNames(fd)[0] {
 				continue // exit(exitCode): argument checked at the call sites
 			}
-			gs := strings.Join(guardsOf(fd.Body, ce.Pos()), ";")
-			hv, lv := flagVar(mf, "h"), flagVar(mf, "help")
+			fmx := newFlagModel(root, nil)
+			var flagGuards []string
+			for _, f := range factsAtLeaf(fd.Body, ce.Pos(), fmx.leaf) {
+				for _, nm := range fmx.names() {
+					if strings.Contains(f, "-"+nm) {
+						flagGuards = append(flagGuards, f)
+						break
+					}
+				}
+			}
+			gs := strings.Join(flagGuards, ";")
 			switch {
 			case v < 0:
-				bad = append(bad, g.Where(ce.Pos())+": exit with a non-constant status")
-			case v == 0 && !(hv != "" && lv != "" && (gs == "*"+hv+"||*"+lv || gs == "*"+lv+"||*"+hv)):
+				okWrap := exitParamOK(ce)
+				if !okWrap {
+					bad = append(bad, g.Where(ce.Pos())+": exit with a non-constant status")
+				}
+			case v == 0 && gs != "-h||-help":
 				bad = append(bad, g.Where(ce.Pos())+": exit(0) under ["+gs+"], expected only under the two help flags")
 			}
 		}
 	}
 	sort.Strings(bad)
-	r.Check(len(bad) == 0 && nExit >= 10, "C13-b", "G.main:exit-statuses", "", "main.go", fmt.Sprintf("%d exit calls: constants, zero only for -h/-help", nExit), strings.Join(bad, "; "))
+	r.Check(len(bad) == 0 && nExit >= 3, "C13-b", "G.main:exit-statuses", "", "main.go", fmt.Sprintf("%d exit calls: constants, zero only for -h/-help", nExit), strings.Join(bad, "; "))
 	r.MinRule("C13-b", 4)
 	// flag defaults and the guards of the two optional phases
 	var badFlags []string
-	ast.Inspect(mf.Body, func(n ast.Node) bool {
-		ce, ok := n.(*ast.CallExpr)
-		if !ok || len(ce.Args) != 3 {
-			return true
-		}
-		switch callName(ce) {
-		case "fs.Bool":
-			if nospace(ce.Args[1]) != "false" {
-				badFlags = append(badFlags, "flag "+nospace(ce.Args[0])+" defaults to "+nospace(ce.Args[1]))
+	fmodel := newFlagModel(root, func(fn string) bool { return strings.HasSuffix(fn, "/pigeon.go") || strings.HasSuffix(fn, "_test.go") })
+	for _, name := range fmodel.names() {
+		switch fmodel.Kind[name] {
+		case "Bool":
+			if fmodel.Default[name] != "false" {
+				badFlags = append(badFlags, "flag \""+name+"\" defaults to "+fmodel.Default[name])
 			}
-		case "fs.String":
-			want := map[string]string{`"o"`: `""`, `"receiver-name"`: `"c"`}[nospace(ce.Args[0])]
-			if want != "" && nospace(ce.Args[1]) != want {
-				badFlags = append(badFlags, "flag "+nospace(ce.Args[0])+" defaults to "+nospace(ce.Args[1]))
+		case "String":
+			want := map[string]string{"o": `""`, "receiver-name": `"c"`}[name]
+			if want != "" && fmodel.Default[name] != want {
+				badFlags = append(badFlags, "flag \""+name+"\" defaults to "+fmodel.Default[name])
 			}
 		}
-		return true
-	})
-	// the facts about flag variables that hold where main reaches each phase (directly or through a helper of the package)
-	flagNames := map[string]bool{}
-	for _, v := range flagDefs(mf) {
-		flagNames[v] = true
 	}
-	flagFacts := func(pos token.Pos) string {
-		var out []string
-		hv, lv := flagVar(mf, "h"), flagVar(mf, "help")
-		for _, f := range factsAt(mf.Body, pos) {
-			if hv != "" && lv != "" && (f == "!*"+hv+"&&!*"+lv || f == "!*"+lv+"&&!*"+hv) {
-				continue // the help flags were not given (their branch exits with status 0)
-			}
-			for v := range flagNames {
-				if strings.Contains(f, "*"+v) {
-					out = append(out, f)
-					break
-				}
-			}
-		}
-		sort.Strings(out)
-		return strings.Join(out, ";")
+	if fmodel.Kind["x"] != "Bool" || fmodel.Kind["optimize-grammar"] != "Bool" {
+		badFlags = append(badFlags, "the -x / -optimize-grammar flags are not defined as boolean flags")
 	}
-	noBuild, optGrammar := flagVar(mf, "x"), flagVar(mf, "optimize-grammar")
-	if noBuild == "" || optGrammar == "" {
-		badFlags = append(badFlags, "the -x / -optimize-grammar flags are not defined with fs.Bool in main")
-	}
-	wantBuild := "!*" + noBuild
-	wantOpt := []string{"!*" + noBuild, "*" + optGrammar}
+	wantBuild := "!-x"
+	wantOpt := []string{"!-x", "-optimize-grammar"}
 	sort.Strings(wantOpt)
 	for _, phase := range []struct{ callee, want, what string }{
 		{"builder.BuildParser", wantBuild, "the parser is built"},
 		{"ast.Optimize", strings.Join(wantOpt, ";"), "the grammar optimizer runs"},
 		{"imports.Process", wantBuild, "formatting runs"},
 	} {
-		sites := reachingCallsIn(root, mf, phase.callee)
-		if len(sites) == 0 {
+		reached := phaseFacts(root, fmodel, mf, phase.callee, 0)
+		if len(reached) == 0 {
 			badFlags = append(badFlags, phase.callee+" is not reached from main")
 		}
-		for _, ce := range sites {
-			if got := flagFacts(ce.Pos()); got != phase.want {
+		for _, got := range reached {
+			if got != phase.want {
 				badFlags = append(badFlags, phase.what+" under ["+got+"] instead of exactly ["+phase.want+"]")
 			}
 		}
@@ -880,10 +904,18 @@ func c13Exit(c *Ctx, g *load.G) {
 	r.Check(len(badFlags) == 0, "C13-b", "G.main:flag-defaults-and-phase-guards", "", "main.go", "every boolean flag defaults to false; build iff !-x; optimizer iff -optimize-grammar", strings.Join(badFlags, "; ")+": without being asked the tool would skip the build (exit 0 without a parser) or rewrite the grammar")
 	// ---- c
 	okRec := false
-	for _, ce := range callsIn(mf.Body) {
-		if callName(ce) == "ParseReader" {
+	fm := newFlagModel(root, func(fn string) bool { return strings.HasSuffix(fn, "/pigeon.go") || strings.HasSuffix(fn, "_test.go") })
+	for _, cf := range cmdFuncs {
+		for _, ce := range callsIn(cf.Body) {
+			if callName(ce) != "ParseReader" {
+				continue
+			}
 			for _, a := range ce.Args {
-				if nospace(a) == "Recover(!*noRecoverFlag)" {
+				rc, ok := a.(*ast.CallExpr)
+				if !ok || callName(rc) != "Recover" || len(rc.Args) != 1 {
+					continue
+				}
+				if ue, ok := stripParens(rc.Args[0]).(*ast.UnaryExpr); ok && ue.Op == token.NOT && fm.flagOf(ue.X) == "no-recover" {
 					okRec = true
 				}
 			}
@@ -1424,8 +1456,46 @@ func c13IO(c *Ctx, g *load.G) {
 		fp := firstParam(fd)
 		ok := false
 		detail := "no " + spec.call + "(" + fp + ") call"
+		root := g.Pkg("")
 		for _, ce := range callsIn(fd.Body) {
-			if callName(ce) == spec.call && len(ce.Args) == 1 && nospace(ce.Args[0]) == fp {
+			direct := callName(ce) == spec.call && len(ce.Args) == 1 && nospace(ce.Args[0]) == fp
+			// ... or through a helper of the package that is handed the library function and the name and calls one on
+			// the other
+			via := false
+			if !direct {
+				iF, iN := -1, -1
+				for k, a := range ce.Args {
+					switch nospace(a) {
+					case spec.call:
+						iF = k
+					case fp:
+						iN = k
+					}
+				}
+				if iF >= 0 && iN >= 0 {
+					var id *ast.Ident
+					switch f := ce.Fun.(type) {
+					case *ast.Ident:
+						id = f
+					case *ast.SelectorExpr:
+						id = f.Sel
+					}
+					for _, h := range load.AllFuncDecls(root) {
+						if id == nil || h.Body == nil || root.TypesInfo.Uses[id] != root.TypesInfo.Defs[h.Name] {
+							continue
+						}
+						ps := paramNames(h)
+						if iF < len(ps) && iN < len(ps) {
+							for _, hc := range callsIn(h.Body) {
+								if nospace(hc.Fun) == ps[iF] && len(hc.Args) == 1 && nospace(hc.Args[0]) == ps[iN] && len(factsAt(h.Body, hc.Pos())) == 0 {
+									via = true
+								}
+							}
+						}
+					}
+				}
+			}
+			if direct || via {
 				gs := factsAt(fd.Body, ce.Pos())
 				ok = len(gs) == 1 && nonEmptyTest(gs[0], fp)
 				detail = spec.call + "(" + fp + ") happens under [" + strings.Join(gs, ";") + "], expected exactly " + fp + ` != ""` + ": the tool reads or writes the wrong stream, or fails on the default stream"
@@ -1922,4 +1992,83 @@ func pathsGuardMapStore(nc *nctx, fd *ast.FuncDecl, name string) bool {
 		}
 	}
 	return true
+}
+
+
+// paramIndexByName: the position of the parameter called name in fd.
+func paramIndexByName(fd *ast.FuncDecl, name string) (int, bool) {
+	for i, p := range paramNames(fd) {
+		if p == name {
+			return i, true
+		}
+	}
+	return -1, false
+}
+
+
+// phaseFacts: for every chain of calls from fd to target through functions of the package, the flag conditions in
+// force along the chain (at the call site in each function), as one sorted text per chain.
+func phaseFacts(p *packages.Package, fm *flagModel, fd *ast.FuncDecl, target string, depth int) []string {
+	if depth > 4 || fd == nil || fd.Body == nil {
+		return nil
+	}
+	flagConj := func(in *ast.FuncDecl, pos token.Pos) []string {
+		var out []string
+		for _, f := range factsAtLeaf(in.Body, pos, fm.leaf) {
+			for _, cj := range splitTop(f, "&&") {
+				if cj == "!-h" || cj == "!-help" {
+					continue // the help flags were not given (their branch exits with status 0)
+				}
+				if strings.HasPrefix(strings.TrimPrefix(cj, "!"), "-") {
+					out = append(out, cj)
+				}
+			}
+		}
+		return out
+	}
+	decls := map[types.Object]*ast.FuncDecl{}
+	for i, f := range p.Syntax {
+		if i < len(p.CompiledGoFiles) && (strings.HasSuffix(p.CompiledGoFiles[i], "/pigeon.go") || strings.HasSuffix(p.CompiledGoFiles[i], "_test.go")) {
+			continue
+		}
+		for _, d := range f.Decls {
+			if x, ok := d.(*ast.FuncDecl); ok && x.Body != nil && x.Recv == nil {
+				decls[p.TypesInfo.Defs[x.Name]] = x
+			}
+		}
+	}
+	var out []string
+	for _, ce := range callsIn(fd.Body) {
+		here := flagConj(fd, ce.Pos())
+		if callName(ce) == target {
+			sort.Strings(here)
+			out = append(out, strings.Join(here, ";"))
+			continue
+		}
+		var id *ast.Ident
+		switch f := ce.Fun.(type) {
+		case *ast.Ident:
+			id = f
+		case *ast.SelectorExpr:
+			id = f.Sel
+		}
+		if id == nil {
+			continue
+		}
+		if h := decls[p.TypesInfo.Uses[id]]; h != nil && h != fd {
+			for _, inner := range phaseFacts(p, fm, h, target, depth+1) {
+				all := append(append([]string{}, here...), splitNonEmpty(inner, ";")...)
+				sort.Strings(all)
+				out = append(out, strings.Join(all, ";"))
+			}
+		}
+	}
+	return uniq(out)
+}
+
+func splitNonEmpty(s, sep string) []string {
+	if s == "" {
+		return nil
+	}
+	return strings.Split(s, sep)
 }
